@@ -146,6 +146,7 @@ type vsBTP struct {
 	Host      string
 	CA        *string
 	WellKnown bool
+	Full      bool // status.ancestors holds 16 entries of other controllers already
 }
 
 type vsConfigMap struct {
@@ -312,7 +313,7 @@ func (c *vsCluster) Coq() string {
 	}
 	var btps, cms []string
 	for _, b := range c.BTPs {
-		btps = append(btps, vu.App("Build_btp", vu.Str(b.NS), vu.Str(b.Name), vu.Z(b.TS), vu.StrList(b.Targets), vu.Str(b.Host), vsOptStr(b.CA), vu.Bool(b.WellKnown)))
+		btps = append(btps, vu.App("Build_btp", vu.Str(b.NS), vu.Str(b.Name), vu.Z(b.TS), vu.StrList(b.Targets), vu.Str(b.Host), vsOptStr(b.CA), vu.Bool(b.WellKnown), vu.Bool(b.Full)))
 	}
 	for _, m := range c.ConfigMaps {
 		cms = append(cms, vu.App("Build_cmap", vu.Str(m.NS), vu.Str(m.Name), vu.Bool(m.OK)))
@@ -656,7 +657,24 @@ func (b vsBTP) obj() client.Object {
 	if b.WellKnown {
 		p.Spec.Validation.WellKnownCACertificates = helpers.GetPointer(v1alpha3.WellKnownCACertificatesSystem)
 	}
+	if b.Full {
+		p.Annotations = map[string]string{vsFullAnnotation: "true"}
+		p.Status.Ancestors = vsFullAncestors()
+	}
 	return p
+}
+
+const vsFullAnnotation = "verif.example.com/ancestors-full"
+
+// vsFullAncestors: sixteen ancestor statuses written by another controller (the CRD's limit).
+func vsFullAncestors() []v1alpha2.PolicyAncestorStatus {
+	var out []v1alpha2.PolicyAncestorStatus
+	for k := 0; k < 16; k++ {
+		out = append(out, v1alpha2.PolicyAncestorStatus{ControllerName: "example.com/other",
+			AncestorRef: gatewayv1.ParentReference{Name: gatewayv1.ObjectName("other-gw-" + strconv.Itoa(k))},
+			Conditions:  []metav1.Condition{{Type: "Accepted", Status: metav1.ConditionTrue, Reason: "Accepted", LastTransitionTime: metav1.Unix(1600000000, 0)}}})
+	}
+	return out
 }
 
 func (m vsConfigMap) obj() client.Object {
@@ -811,13 +829,16 @@ func vsGenBackend(r *vu.Rng, routeNS string) vsBackend {
 	if r.Chance(1, 8) {
 		b.Name = "missing"
 	}
-	switch r.Intn(6) {
+	switch r.Intn(7) {
 	case 0:
 		b.Weight = 0
 	case 1:
 		b.Weight = int32(r.Range(2, 9))
 	case 2:
 		b.Weight = int32(r.Range(10, 1000))
+	case 3:
+		// the API admits weights up to 1,000,000: products with the percent scale leave 32 bits
+		b.Weight = []int32{214748, 214749, 250000, 300000, 700000, 1000000}[r.Intn(6)]
 	}
 	if r.Chance(1, 4) {
 		b.NS = vsPtr(vsPick(r, vsNSPool))
@@ -953,6 +974,9 @@ func vsGen(r *vu.Rng, size int) *vsCluster {
 				b.CA = vsPtr("missing-ca")
 			default:
 				b.CA = vsPtr("ca")
+			}
+			if r.Chance(1, 6) {
+				b.Full = true
 			}
 			c.BTPs = append(c.BTPs, b)
 		}
@@ -1116,6 +1140,28 @@ func vsGen(r *vu.Rng, size int) *vsCluster {
 			rt.Rules = append(rt.Rules, ru)
 		}
 		c.Routes = append(c.Routes, rt)
+	}
+	// the oldest of two policies for one Service is the one NGF must ignore (its ancestor list is full); the Service is
+	// one that a route's backend really references
+	if len(c.BTPs) >= 2 && r.Chance(1, 2) {
+		for _, rt := range c.Routes {
+			if len(rt.Rules) == 0 || len(rt.Rules[0].Backends) == 0 {
+				continue
+			}
+			be := rt.Rules[0].Backends[0]
+			ns := rt.NS
+			if be.NS != nil {
+				ns = *be.NS
+			}
+			if ns != vsNSPool[0] && ns != vsNSPool[1] {
+				continue
+			}
+			c.BTPs[0].NS, c.BTPs[1].NS = ns, ns
+			c.BTPs[0].Targets, c.BTPs[1].Targets = []string{be.Name}, []string{be.Name}
+			c.BTPs[0].TS, c.BTPs[1].TS = 0, 1
+			c.BTPs[0].Full, c.BTPs[1].Full = true, false
+			break
+		}
 	}
 	// fat routes (one state in eight): one Route with 13..16 rules, or two Routes of the same parents and hostnames
 	// with 7..8 rules each, every rule one match on ONE path told apart only by a header (12 name/value
